@@ -59,6 +59,7 @@ def leaves_single(x=X):
         ("cmp", "eq", ("i", A(x, "d"), "k"), L(2)), ("cmp", "lt", A(A(x, "ref"), "p"), q),
         ("cmp", "ge", ("c", x, "get_p", ()), ("c", A(x, "ref"), "get_q", ())),
         ("cmp", "eq", ("i", A(x, "t"), 0), p), ("cmp", "ne", ("i", A(x, "s"), 0), L("y")),
+        ("cmp", "eq", ("i", A(x, "t"), -1), L(3)), ("cmp", "gt", ("i", A(x, "t"), -2), L(1)),
         ("pf", "p_eq", (x, L(2))), ("pc", "PEq", (x, L(2))),
         # method calls with keyword arguments (the defaults lo=1, hi=3 would give a different answer)
         ("t", ("ck", x, "p_between", (), (("lo", 2),))), ("t", ("ck", x, "p_between", (), (("hi", 1),))),
@@ -104,10 +105,10 @@ def exc_obs(e):
     return ("EXC", type(e).__name__, re.sub(r"\d+", "#", str(e))[:160])
 
 
-def eval_entity(q, world, inst):
+def eval_entity(q, world, inst, share_terms=False):
     """build and fully evaluate an entity query; returns list of result objects or ('EXC', ...)"""
     try:
-        obj, b = Q.build(q, world, inst)
+        obj, b = Q.build(q, world, inst, share_terms=share_terms)
         return list(obj.evaluate())
     except W.InjectedFault:
         raise
